@@ -71,7 +71,7 @@ Definition ctx_eqb (a b : ctx) : bool := Nat.eqb (fst a) (fst b) && Bool.eqb (sn
 Definition mem_ctx (c : ctx) (S : list ctx) : bool := existsb (ctx_eqb c) S.
 
 Section Checker.
-  Variable bad : ekind -> bool.          (* which effect kinds are forbidden *)
+  Variable bad : ekind -> nat -> bool.   (* which effect events (kind, site) are forbidden *)
 
   (* [local_ok S dry b]: no forbidden effect site is reachable in [b] under flag [dry], and every
      callee context reachable from it is a member of [S]. *)
@@ -80,7 +80,7 @@ Section Checker.
     | BNil => true
     | BCons s r =>
         (match s with
-         | Eff k _ => negb (bad k)
+         | Eff k site => negb (bad k site)
          | If (GDry pol) t e => if Bool.eqb dry pol then local_ok S dry t else local_ok S dry e
          | If (GImplies pol) t e =>
              (if Bool.eqb dry pol then local_ok S dry t else true) && local_ok S dry e
@@ -134,9 +134,10 @@ Section Checker.
     let S := reach p entry in mem_ctx entry S && closed_ok p S.
 End Checker.
 
-Definition bad_fs (k : ekind) : bool := match k with KFs | KUnsupported => true | _ => false end.
-Definition bad_exec (k : ekind) : bool := match k with KExec | KProc | KNet | KUnsupported => true | _ => false end.
-Definition bad_any (k : ekind) : bool := true.
+Definition bad_fs (k : ekind) (_ : nat) : bool := match k with KFs | KUnsupported => true | _ => false end.
+Definition bad_exec (k : ekind) (_ : nat) : bool := match k with KExec | KProc | KNet | KUnsupported => true | _ => false end.
+(* every site is forbidden unless its number is in an approved list *)
+Definition bad_unless (approved : list nat) (_ : ekind) (site : nat) : bool := negb (existsb (Nat.eqb site) approved).
 
-Definition harmless (bad : ekind -> bool) (tr : list event) : Prop :=
-  Forall (fun ev => bad (fst ev) = false) tr.
+Definition harmless (bad : ekind -> nat -> bool) (tr : list event) : Prop :=
+  Forall (fun ev => bad (fst ev) (snd ev) = false) tr.
